@@ -53,6 +53,18 @@ impl PathBuf {
         ensures self@.len() > 0 ==> (r matches Some(s) && s@ == self@.last()), self@.len() == 0 ==> r is None
     { unimplemented!() }
 }
+impl PathBuf {
+    // PathBuf::push with ONE normal component: extends the path in place (it stays extended until popped)
+    #[verifier::external_body]
+    pub fn push<T: OsLike>(&mut self, t: T)
+        requires is_component(t.os_view())
+        ensures final(self)@ == old(self)@.push(t.os_view())
+    { unimplemented!() }
+    #[verifier::external_body]
+    pub fn pop(&mut self) -> (r: bool)
+        ensures old(self)@.len() > 0 ==> r && final(self)@ == old(self)@.drop_last(), old(self)@.len() == 0 ==> !r && final(self)@ == old(self)@
+    { unimplemented!() }
+}
 // std's Path::with_extension: the final component's extension is REPLACED (stem kept), not appended
 pub open spec fn with_ext(c: Seq<u8>, e: Seq<u8>) -> Seq<u8> { if e.len() == 0 { stem_of(c) } else { stem_of(c) + seq![46u8] + e } }
 impl PathBuf {
